@@ -8,8 +8,13 @@ NOT_YET = "check not built yet (work in progress); see DESIGN.md section 6 for t
 # properties deliberately not claimed, with the reason
 NA = {}
 
+# checks still being built (their files may already be in the tree): not claimed yet
+WIP = {"C07", "C09", "C10", "C14"}
+
 CHECKS = {}
 for _p in ALL:
+    if _p in WIP:
+        continue
     if os.path.exists(os.path.join(os.path.dirname(os.path.abspath(__file__)), _p.lower() + ".py")):
         _m = importlib.import_module(_p.lower())
         if hasattr(_m, "META"):
